@@ -4,7 +4,7 @@
    mathematical integer on which every C `long` operation is written with an
    explicit two's complement wrap (wrap64) and every `(int)` cast with wrap32.
    Definitions only; no lemma lives here. *)
-From Coq Require Import ZArith Bool.
+From Coq Require Import ZArith Bool Reals.
 From Flocq Require Import Core BinarySingleNaN.
 From Flocq Require Binary Bits.
 
@@ -37,8 +37,10 @@ Definition fmul : b64 -> b64 -> b64 := Bmult mode_NE.
 Definition fdiv : b64 -> b64 -> b64 := Bdiv mode_NE.
 Definition fsqrt : b64 -> b64 := Bsqrt mode_NE.
 Definition fneg : b64 -> b64 := Bopp.
-(* ldexp (x, n) with n an int *)
-Definition fldexp (x : b64) (n : Z) : b64 := Bldexp mode_NE x n.
+(* ldexp (x, n) with n an int.  For |n| > 2200 the result is the one at +-2200 for every double
+   (2^-1074 * 2^2200 overflows, DBL_MAX * 2^-2200 rounds to zero); clamping keeps the
+   computation cheap for the huge n that (int) casts of wrapped exponents produce. *)
+Definition fldexp (x : b64) (n : Z) : b64 := Bldexp mode_NE x (Z.max (-2200) (Z.min 2200 n)).
 
 Definition fzero : b64 := B754_zero false.
 Definition fhalf : b64 := @B754_finite 53 1024 false 4503599627370496 (-53) eq_refl.   (* 0.5 *)
@@ -90,3 +92,11 @@ Definition rdpe_norm (x : rdpe) : rdpe :=
   let (m', i) := ffrexp (mnt x) in
   if feq0 m' then Rdpe m' 0 else Rdpe m' (wrap64 (esp x + i)).
 Definition cdpe_norm (c : cdpe) : cdpe := Cdpe (rdpe_norm (cre c)) (rdpe_norm (cim c)).
+
+(* ---- denotation (used by the statements, not by the executable model) ------ *)
+Definition rval (x : rdpe) : R := (B2R (mnt x) * bpow radix2 (esp x))%R.
+(* normalised: finite mantissa, and either (0, 0) or 1/2 <= |m| < 1 *)
+Definition normalised (x : rdpe) : Prop :=
+  is_finite (mnt x) = true /\
+  ((B2R (mnt x) = 0%R /\ esp x = 0) \/ (/2 <= Rabs (B2R (mnt x)) < 1)%R).
+Definition nonzero (x : rdpe) : Prop := B2R (mnt x) <> 0%R.
